@@ -1,5 +1,6 @@
 import Driver.Common
 import Driver.ObjFmt
+import Driver.Views
 import Parsley.Model.Obj
 import Parsley.Spec.Spelling
 import Parsley.Spec.SpellingWF
@@ -18,8 +19,17 @@ open Parsley Parsley.Prim Parsley.Obj Parsley.Spelling Driver
                                                    encoder's domain); expected value by Spec/NumLit.lean; judged like `sp`
     `nolit <d> <hex>`                              such a text that is not an object (token beyond the i128 range, or a
                                                    reference whose number / generation is not an integer): must be rejected
-    (`lit` / `nolit` also carry the tokens WITH a decimal point, expected value by Spec/DecLit.lean) -/
-def model (line : String) : String :=
+    (`lit` / `nolit` also carry the tokens WITH a decimal point, expected value by Spec/DecLit.lean)
+    `cut <d> <hex> <r>`                            a strict prefix of a legal spelling (the rest lies behind the window of a
+                                                   view case): whatever is accepted lies inside the buffer; with r = 1 (a
+                                                   string, array or dictionary cut before its closing delimiter) it must be
+                                                   rejected
+    view variant `vw <steps> <prehex> <sufhex> <any case above>`: the same case with `<hex>` as a window of the larger
+    allocation `<prehex> ++ <hex> ++ <sufhex>`, selected by a chain of RestrictView / RestrictViewFrom steps
+    (Driver/Views.lean).  The unchanged code reports start, end and cursor as cursors of the view it was given, so
+    the expected output is that of the plain case; model and oracle see the window's bytes alone
+    (justification: Parsley.C17.view_refines_copy).  Classes of rejected view cases are prefixed `view-`. -/
+def modelPlain (line : String) : String :=
   match words line with
   | _ :: d :: hex :: _ =>
     match d.toNat?, bytesOfHex hex with
@@ -31,7 +41,14 @@ def model (line : String) : String :=
     | _, _ => "bad-case"
   | _ => "bad-case"
 
-def judge (case impl : String) : String :=
+/-- the window of a case: its third word -/
+def winOf : List String → Option Bytes
+  | _ :: _ :: hex :: _ => bytesOfHex hex
+  | _ => none
+
+def model (line : String) : String := Views.model winOf modelPlain line
+
+def judgePlain (case impl : String) : String :=
   match words case with
   | "sp" :: _ :: _ :: len :: lead :: sexp | "lit" :: _ :: _ :: len :: lead :: sexp =>
     let want := s!"ok {lead} {len} {len} " ++ " ".intercalate sexp
@@ -49,7 +66,19 @@ def judge (case impl : String) : String :=
     else if impl.startsWith "ok" && sexpHasNullEntry impl then
       "bad dict-with-null-value"
     else "ok"
+  | "cut" :: _ :: hex :: r :: _ =>
+    let n := ((bytesOfHex hex).getD []).length
+    match words impl with
+    | "ok" :: a :: b :: c :: _ =>
+      if r == "1" then "bad cut-accepted an array, dictionary or string without its closing delimiter"
+      else match a.toNat?, b.toNat?, c.toNat? with
+        | some a, some b, some c => if a ≤ b && b ≤ n && c ≤ n then "ok" else s!"bad beyond-window span {a}..{b} cursor {c} in a buffer of {n} bytes"
+        | _, _, _ => "bad panic-or-crash"
+    | "err" :: _ => "ok"
+    | _ => "bad panic-or-crash"
   | _ => "skip"
+
+def judge (case impl : String) : String := Views.judge winOf judgePlain case impl
 
 /-! ### random values -/
 
@@ -266,7 +295,98 @@ def decLits (emit : String → IO Unit) (full : Bool) : IO Unit := do
       emit (caseOf (bs "[" ++ tok ++ bs " 0 R]") [] none)
       emit (caseOf (bs "5") (bs " " ++ tok ++ bs " R") (some (.int 5)))
 
-def gen (seed n : Nat) (tier : String) (emit : String → IO Unit) : IO Unit := do
+/-! ### every case once more on a restricted view (Driver/Views.lean)
+
+  Each case line is followed by its view twin.  Axes, cycled by the running case counter `c` with pairwise coprime
+  periods: bytes in front of the window (16: 1, 7, 11, 1000, ... of them - header-like text with complete objects, or
+  random bytes), chain of restrictions (7: View, From, view of a view in four ways, three deep), bytes behind the
+  window (5).  What lies behind the window CONTINUES the text: after a truncated spelling (`mut`, `cut`) the rest of
+  it; otherwise more digits / ` 0 R` / regular characters / closing delimiters, so that a parser reading beyond the
+  view's end sees another token, a reference, or a completed construct.  One `sp` / `lit` twin in three has its window
+  END WITH THE SPELLING (the following context of the case moves behind the window, then the continuation): the end
+  of the view is the delimiter. -/
+
+def junkText : Bytes :=
+  bs "%PDF-1.7\n1 0 obj<</A[1 2 (x)]/B 12 0 R>>endobj\n[/N 3.5 <41>] 7 0 R (str) <</K/V>>\n2 0 obj 17 endobj\n"
+
+def sufPool : List Bytes :=
+  [bs "7 0 R", bs " 0 R", bs "0", bs "abc", bs ">>", bs "]", bs ")", bs " 2 R", bs ">", bs ".5", bs "#41", bs "e]", bs "\n", bs " 1 0 R>>]"]
+
+def viewTwin (c : Nat) (line : String) (cont : Option Bytes) : Option String :=
+  match words line with
+  | tag :: d :: hex :: rest =>
+    match bytesOfHex hex with
+    | none => none
+    | some buf =>
+      let pool := sufPool[(c / 5) % sufPool.length]?.getD []
+      -- the window ends with the spelling; the case's own following context lies behind it
+      let trimmed : Option (String × Nat × Bytes) :=
+        match rest with
+        | len :: _ =>
+          match len.toNat? with
+          | some l => if (tag == "sp" || tag == "lit") && c % 3 == 0 && l > 0 && l ≤ buf.length
+                      then some (" ".intercalate (tag :: d :: hexOfBytes (buf.take l) :: rest), l, buf.drop l) else none
+          | none => none
+        | [] => none
+      match trimmed with
+      | some (line', l, ctx) =>
+        -- (behind a window that ends with an Integer there may well be ` 0 R`: for the parser nothing is there)
+        let suf := match c % 5 with | 1 => ctx | 3 => pool | _ => ctx ++ pool
+        some (Views.viewLine c line' l junkText suf)
+      | none =>
+        let suf : Bytes := match c % 5 with
+          | 1 => []
+          | 3 => pool
+          | _ => cont.getD pool
+        some (Views.viewLine c line buf.length junkText suf)
+  | _ => none
+
+def isComposite : Obj → Bool
+  | .arr _ | .dict _ | .str _ => true
+  | _ => false
+
+/-- windows that end inside a spelling: legal spellings cut at every byte, the rest (and a following context)
+    lying behind the window -/
+def cutWindows (emit : String → IO Unit) (seed nvals : Nat) : IO Unit := do
+  let mut r := Rng.mk' (seed + 77)
+  let mut k := 0
+  let fixed : List Obj := [.arr [.int 1, .int 2], .dict [(bs "A", .int 12), (bs "B", .arr [.name (bs "N")])], .str (bs "a(b)c"),
+    .ref 12 0, .int 1234, .real 314159 100000, .name (bs "Name"), .bool true, .null,
+    .arr [.ref 3 0, .str (bs "x"), .dict [(bs "K", .ref 10 2)]]]
+  for i in List.range (fixed.length + nvals) do
+    let (v, r1) := match fixed[i]? with
+      | some v => (v, r)
+      | none => rndObj 3 r
+    let (sv, r2) := shuffleObj v r1
+    let (ch, r3) := rndChoices r2 600
+    let (lk, r4) := r3.nat 3
+    let (lc, r5) := rndChoices r4 6
+    let (ctx, r6) := r5.pick contexts
+    r := r6
+    let (body, _) := spell sv ch
+    let sp := (wsRun lk lc).1 ++ body
+    let ctx := genContextFor (isInt v) ctx
+    let d := depth v + 1
+    if sp.length ≤ 120 then
+      for cut in List.range (sp.length + 1) do
+        k := k + 1
+        let flag := if isComposite v && cut < sp.length then 1 else 0
+        let line := s!"cut {d} {Views.hexOrDash (sp.take cut)} {flag}"
+        match viewTwin k line (some (sp.drop cut ++ ctx)) with
+        | some l => emit l
+        | none => pure ()
+
+def gen (seed n : Nat) (tier : String) (emit0 : String → IO Unit) : IO Unit := do
+  -- every case is emitted twice: as it is, and on a restricted view
+  let ctr ← IO.mkRef 0
+  let emitC (cont : Option Bytes) (line : String) : IO Unit := do
+    emit0 line
+    let c ← ctr.modifyGet fun c => (c, c + 1)
+    match viewTwin c line cont with
+    | some l => emit0 l
+    | none => pure ()
+  let emit := emitC none
+  cutWindows emit0 seed (if tier == "thorough" then 400 else 40)
   numLits emit (tier == "thorough")
   decLits emit (tier == "thorough")
   let mut r := Rng.mk' seed
@@ -294,7 +414,8 @@ def gen (seed n : Nat) (tier : String) (emit : String → IO Unit) : IO Unit := 
       | 0 => sp.take pos
       | 1 => sp.take pos ++ [nb] ++ sp.drop (pos + 1)
       | _ => sp.take pos ++ sp.drop (pos + 1)
-    emit s!"mut {d} {hexOfBytes m}"
+    -- (on a view: behind a truncated window lies the rest of the spelling)
+    emitC (if mk == 0 then some (sp.drop pos ++ ctx) else none) s!"mut {d} {hexOfBytes m}"
     -- duplicate non-null key
     match v with
     | .dict ((k, x) :: _) =>
@@ -305,14 +426,18 @@ def gen (seed n : Nat) (tier : String) (emit : String → IO Unit) : IO Unit := 
     | _ => pure ()
 
 /-- non-trivial: the spelling differs from a bare scalar token (contains a space, delimiter pair or escape) and is ≥ 4 bytes -/
-def nontrivial (line : String) : Bool :=
+def nontrivialPlain (line : String) : Bool :=
   match words line with
+  | "cut" :: _ :: hex :: _ => hex.length ≥ 8
   | "sp" :: _ :: hex :: _ => hex.length ≥ 8
   | "lit" :: _ :: hex :: _ => hex.length ≥ 8
   | "nolit" :: _ => true
   | "dup" :: _ => true
   | "mut" :: _ :: hex :: _ => hex.length ≥ 8
   | _ => false
+
+/-- a case on a view counts when the case does and the window lies inside a larger allocation -/
+def nontrivial (line : String) : Bool := Views.nontrivial nontrivialPlain line
 
 -- executed at build time: 400 generated values (two seeds) are in the domain `wfDeep` of the
 -- encoder theorem and denote the expected value
